@@ -36,7 +36,7 @@ CHECKS = {
    tech=TECH + " (simulated clock, history enumeration + seeded search, reference model)"),
  "C14": dict(cat="exploration", ref="5 C14",
    text="purity under schedules: 2-32 concurrent Select / SelectPhantom calls on one shared selector with every math/rand global call and lock as a scheduling point; each concurrent result must equal the same call executed alone before and after; all schedules of 2 tasks (bounded preemptions for 3-4 tasks) are enumerated for 12 small scenarios, larger ones sampled; containment (family, inside a configured subnet of the generation, port flag) is asserted on every result over generated configurations incl. /32, /128, leading-zero networks, overlaps, zero weights, and an offset sweep of small subnets",
-   note="containment is input sampling and labelled so; the draw inside mroth/weightedrand's Chooser.Pick is not a yield point (third-party module), so a wrong group pick under interleaving is under-approximated; IPv4-mapped IPv6 networks are never configured",
+   note="containment is input sampling and labelled so; the draw inside mroth/weightedrand's Chooser.Pick is not a yield point (third-party module), so a wrong group pick under interleaving is under-approximated; an IPv4 network written ::ffff:a.b.c.d/(96+n) is read as the IPv4 network a.b.c.d/n",
    tech=TECH + " (lock-level / rand-level cooperative scheduler, schedule enumeration + seeded search, serial-result oracle)"),
  "C16": dict(cat="exploration", ref="5 C16",
    text="four populations: (c) byte stream - every script of <= 3 messages (thorough 4) over {0,1,2,max-1,max,heartbeat} x cyclic read sizes x error variant x pace below the real hbConn/hbClient + SCTPConn is enumerated (1.46 M cases quick); (d) flow control and heartbeat watchdog under scripted drain rates, jitter and loss; (b) routing: 2-8 (thorough 32) dial/accept pairs on one real Listener with real pion DTLS handshakes over simulated datagram links, distinct / equal / unregistered secrets, cancellations at tape-chosen points, the listener's locks as scheduling points; (a) handshake <=> same secret incl. certificate derivation across midnight and datagram faults",
